@@ -278,6 +278,28 @@ def run(res, proof):
             finally:
                 os.unlink(p)
             res.count('file_vs_string')
+        # how a file ends: no line end after the last statement, blanks or a comment after it, empty lines after it — the
+        # statements read are the same
+        for k, (lab, txt, exp) in enumerate([c for c in cases if c[0] == 'document'][:25 if quick else 300]):
+            base = txt.rstrip('\r\n \t')
+            if '#' in base.rsplit('\n', 1)[-1]:
+                continue
+            nrm = lambda r: [PG.norm(list(t)) for t in (r.asList() if hasattr(r, "asList") else r)]      # a dot-bracket is one token up to blanks
+            want = nrm(parse_pil_string(base + '\n'))
+            for tail in ('', ' ', '\t ', ' # end', '#', '\n\n\n', '\n# end', '\r\n', '\n   ', ' # end\n# more'):
+                res.evaluations += 1
+                p = os.path.join(tmpdir, 'tail.pil')
+                with open(p, 'w', newline='') as f:
+                    f.write(base + tail)
+                try:
+                    got = nrm(parse_pil_file(p))
+                    if got != want:
+                        res.violation('file-ending-changes-result', {'text': base + tail}, 'differs from the same statements with one line end', 'equal')
+                except Exception as e:
+                    res.violation('file-ending-raises:' + type(e).__name__, {'text': base + tail}, type(e).__name__, 'the same statements'); e = None
+                finally:
+                    os.unlink(p)
+                res.count('file_endings')
         # a malformed statement AFTER well-formed ones: rejected through the file entry point as through the string one
         good = [c for c in cases if c[0].startswith('stmt') and c[2] not in (None, 'unknown')]
         bad = [c for c in cases if c[0].startswith('negative')]
